@@ -185,6 +185,188 @@ Proof.
   f_equal. f_equal. clear - Hy. destruct (m <=? 2); lia.
 Qed.
 
+(* ------------------------------------------------------------------ *)
+(* Numerals                                                            *)
+
+Lemma dt_digits_val_acc_app : forall s1 s2 a,
+  digits_val_acc (s1 ++ s2) a =
+  match digits_val_acc s1 a with Some v => digits_val_acc s2 v | None => None end.
+Proof.
+  induction s1 as [|c s1 IH]; intros s2 a.
+  - reflexivity.
+  - cbn [app digits_val_acc]. destruct (is_digit c); [apply IH|reflexivity].
+Qed.
+
+Definition all_digits (s : str) : Prop := Forall (fun c => is_digit c = true) s.
+
+Lemma dt_digits_of_spec : forall fuel z acc, (1 <= fuel)%nat -> 0 <= z < 10 ^ Z.of_nat fuel ->
+  exists ds, digits_of fuel z acc = ds ++ acc /\ all_digits ds /\ (1 <= length ds)%nat /\
+    (forall k : nat, (1 <= k)%nat -> z < 10 ^ Z.of_nat k -> (length ds <= k)%nat) /\
+    (forall a, digits_val_acc ds a = Some (a * 10 ^ Z.of_nat (length ds) + z)).
+Proof.
+  induction fuel as [|f IH]; intros z acc Hf Hz; [lia|].
+  cbn [digits_of]. destruct (Z.ltb_spec z 10) as [Hlt|Hge].
+  - exists [48 + z mod 10]. rewrite Z.mod_small by lia.
+    split; [reflexivity|]. split.
+    { constructor; [|constructor]. unfold is_digit. apply andb_true_intro. split; apply Z.leb_le; lia. }
+    split; [cbn [length]; lia|]. split.
+    { intros k Hk1 Hk. cbn [length]. lia. }
+    intros a. cbn [digits_val_acc length].
+    replace (is_digit (48 + z)) with true
+      by (symmetry; unfold is_digit; apply andb_true_intro; split; apply Z.leb_le; lia).
+    unfold digit_val. f_equal. change (10 ^ Z.of_nat 1) with 10. lia.
+  - rewrite Nat2Z.inj_succ, Z.pow_succ_r in Hz by lia.
+    assert (Hf1 : (1 <= f)%nat).
+    { destruct f as [|f']; [|lia]. change (10 ^ Z.of_nat 0) with 1 in Hz. lia. }
+    assert (Hq : 0 <= z / 10 < 10 ^ Z.of_nat f) by dlia.
+    destruct (IH (z / 10) ((48 + z mod 10) :: acc) Hf1 Hq) as (ds & E & Hall & Hlen1 & Hlen & Hval).
+    exists (ds ++ [48 + z mod 10]). split; [rewrite <- app_assoc; exact E|]. split.
+    { apply Forall_app. split; [exact Hall|]. constructor; [|constructor].
+      unfold is_digit. apply andb_true_intro. split; apply Z.leb_le; dlia. }
+    rewrite app_length. cbn [length]. split; [lia|]. split.
+    { intros k Hk1 Hk. destruct k as [|k]; [lia|].
+      rewrite Nat2Z.inj_succ, Z.pow_succ_r in Hk by lia.
+      assert (Hk' : z / 10 < 10 ^ Z.of_nat k) by dlia.
+      assert (Hk2 : (1 <= k)%nat).
+      { destruct k as [|k']; [|lia]. change (10 ^ Z.of_nat 0) with 1 in Hk. lia. }
+      specialize (Hlen k Hk2 Hk'). lia. }
+    intros a. rewrite dt_digits_val_acc_app, Hval. cbn [digits_val_acc].
+    replace (is_digit (48 + z mod 10)) with true
+      by (symmetry; unfold is_digit; apply andb_true_intro; split; apply Z.leb_le; dlia).
+    unfold digit_val. f_equal.
+    replace (Z.of_nat (length ds + 1)) with (Z.succ (Z.of_nat (length ds))) by lia.
+    rewrite Z.pow_succ_r by lia.
+    pose proof (Z.div_mod z 10 ltac:(lia)) as Hdm. nia.
+Qed.
+
+Lemma dt_repeat0_val : forall n, digits_val_acc (repeat 48 n) 0 = Some 0.
+Proof. induction n as [|n IH]; [reflexivity|]. cbn [repeat digits_val_acc]. exact IH. Qed.
+
+Lemma dt_parse_print_padded : forall w z, 0 <= z < 10 ^ (Z.of_nat w) -> (1 <= w <= 40)%nat ->
+   length (print_padded w z) = w /\ parse_digits (print_padded w z) = Some z
+   /\ Forall (fun c => is_digit c = true) (print_padded w z).
+Proof.
+  intros w z Hz Hw.
+  assert (H40 : 0 <= z < 10 ^ Z.of_nat 40).
+  { split; [lia|]. apply Z.lt_le_trans with (10 ^ Z.of_nat w); [lia|].
+    apply Z.pow_le_mono_r; lia. }
+  destruct (dt_digits_of_spec 40 z [] ltac:(lia) H40) as (ds & E & Hall & Hlen1 & Hlen & Hval).
+  rewrite app_nil_r in E.
+  unfold print_padded, print_nat. rewrite E.
+  specialize (Hlen w ltac:(lia) ltac:(lia)).
+  split; [rewrite app_length, repeat_length; lia|]. split.
+  - assert (Hv : digits_val_acc (repeat 48 (w - length ds) ++ ds) 0 = Some z).
+    { rewrite dt_digits_val_acc_app, dt_repeat0_val, Hval. f_equal; lia. }
+    unfold parse_digits. destruct (repeat 48 (w - length ds) ++ ds) as [|c l] eqn:El; [|exact Hv].
+    apply app_eq_nil in El. destruct El as [_ El]. rewrite El in Hlen1. cbn [length] in Hlen1. lia.
+  - apply Forall_app. split; [|exact Hall].
+    apply Forall_forall. intros c Hc. apply repeat_spec in Hc. subst c. reflexivity.
+Qed.
+
+Lemma dt_firstn_app_len : forall (l r : str), firstn (length l) (l ++ r) = l.
+Proof. induction l as [|c l IH]; intros r; [reflexivity|]. cbn [length app firstn]. f_equal. apply IH. Qed.
+
+Lemma dt_skipn_app_len : forall (l r : str), skipn (length l) (l ++ r) = r.
+Proof. induction l as [|c l IH]; intros r; [reflexivity|]. cbn [length app skipn]. apply IH. Qed.
+
+Lemma take_uint_padded : forall w z maxv rest,
+  0 <= z < 10 ^ Z.of_nat w -> (1 <= w <= 40)%nat -> z <= maxv ->
+  take_uint (print_padded w z ++ rest) w maxv = Some (z, rest).
+Proof.
+  intros w z maxv rest Hz Hw Hmax.
+  destruct (dt_parse_print_padded w z Hz Hw) as (Hlen & Hp & _).
+  unfold take_uint. revert Hlen Hp. generalize (print_padded w z). intros p Hlen Hp.
+  clear Hz Hw. subst w. rewrite app_length.
+  replace (Nat.ltb (length p + length rest) (length p)) with false by (symmetry; apply Nat.ltb_ge; lia).
+  rewrite dt_firstn_app_len, dt_skipn_app_len, Hp.
+  destruct (Z.gtb_spec z maxv) as [Hgt|_]; [lia|reflexivity].
+Qed.
+
+(* ------------------------------------------------------------------ *)
+(* The parser, split after the year field                              *)
+
+Definition parse_tail (year : Z) (s : str) : option Z :=
+    s <- expect_char s 45 ;;
+    p <- take_uint s 2 12 ;; let '(month, s) := p in
+    s <- expect_char s 45 ;;
+    p <- take_uint s 2 31 ;; let '(day, s) := p in
+    if (month <? 1) || (day <? 1) || (day >? days_in_month year month) then None else
+    let days := days_from_civil year month day in
+    match s with
+    | [] => let ms := days * MillisPerDay in if in_dt_range ms then Some ms else None
+    | _ =>
+      s <- expect_char s 84 ;;
+      p <- take_uint s 2 23 ;; let '(hour, s) := p in
+      s <- expect_char s 58 ;;
+      p <- take_uint s 2 59 ;; let '(minute, s) := p in
+      s <- expect_char s 58 ;;
+      p <- take_uint s 2 59 ;; let '(second, s) := p in
+      match s with
+      | [] => None
+      | _ =>
+        p <- (match s with
+              | 46 :: s' => take_uint s' 3 999
+              | _ => Some (0, s) end) ;; let '(milli, s) := p in
+        match s with
+        | [] => None
+        | z :: s' =>
+          p <- (if z =? 90 then Some (0, s')
+                else if (z =? 43) || (z =? 45) then
+                  q <- take_uint s' 2 23 ;; let '(hh, s2) := q in
+                  q <- take_uint s2 2 59 ;; let '(mm, s3) := q in
+                  let off := (hh * MillisPerHour + mm * MillisPerMinute) in
+                  Some (if z =? 45 then - off else off, s3)
+                else None) ;; let '(offset, s) := p in
+          match s with
+          | _ :: _ => None
+          | [] =>
+            let ms := days * MillisPerDay + hour * MillisPerHour + minute * MillisPerMinute
+                      + second * MillisPerSecond + milli - offset in
+            if in_dt_range ms then Some ms else None
+          end
+        end
+      end
+    end.
+
+Lemma parse_datetime_unfold : forall c rest,
+  parse_datetime (c :: rest) =
+  if c =? 43 then (p <- take_uint rest 9 999999999 ;; let '(ay, s) := p in parse_tail (ay * 1) s)
+  else if c =? 45 then (p <- take_uint rest 9 999999999 ;; let '(ay, s) := p in parse_tail (ay * -1) s)
+  else if is_digit c then (p <- take_uint (c :: rest) 4 9999 ;; let '(ay, s) := p in parse_tail (ay * 1) s)
+  else None.
+Proof.
+  intros c rest. unfold parse_datetime.
+  destruct (c =? 43); [reflexivity|]. destruct (c =? 45); [reflexivity|].
+  destruct (is_digit c); reflexivity.
+Qed.
+
+(* ------------------------------------------------------------------ *)
+(* Parsed values are in range                                          *)
+
+Ltac dt_step H :=
+  match type of H with
+  | bind ?o _ = Some _ =>
+      let E := fresh "E" in destruct o as [?|] eqn:E; [cbn [bind] in H | discriminate H]
+  | (let '(_, _) := ?p in _) = Some _ => destruct p as [? ?]
+  | (if ?b then _ else _) = Some _ => let Hb := fresh "Hb" in destruct b eqn:Hb
+  | (match ?s with [] => _ | _ :: _ => _ end) = Some _ => destruct s as [|? ?]
+  | None = Some _ => discriminate H
+  end.
+
+Lemma parse_tail_in_range : forall year s z, parse_tail year s = Some z -> in_dt_range z = true.
+Proof.
+  intros year s z H. unfold parse_tail in H.
+  repeat dt_step H; cbv zeta in H; repeat dt_step H; inversion H; subst; assumption.
+Qed.
+
+Theorem datetime_parse_in_range : forall s z, parse_datetime s = Some z -> in_dt_range z = true.
+Proof.
+  intros s z H. destruct s as [|c rest]; [discriminate H|].
+  rewrite parse_datetime_unfold in H.
+  repeat dt_step H; eapply parse_tail_in_range; eassumption.
+Qed.
+
 Print Assumptions civil_from_days_valid.
 Print Assumptions civil_inverse.
 Print Assumptions days_from_civil_inverse.
+Print Assumptions datetime_parse_in_range.
